@@ -179,7 +179,11 @@ func reentrantFamily(r *harness.Run, prop string) {
 		L := lua.NewState()
 		f, err := L.LoadString(reentrantLua)
 		if err != nil {
-			harness.Fatal("reentrant: %v", err)
+			// the script is valid Lua 5.1 (it loads on every tree the property holds on): a loader that
+			// refuses it is the defect
+			r.Violation("reentrant/valid-script-rejected", "the loader refuses the (valid) script of the re-entrancy product: "+firstLine(err.Error()), map[string]interface{}{"script": reentrantLua})
+			L.Close()
+			return nil
 		}
 		wd := fmt.Sprintf("%s/w%d", dir, wi)
 		os.MkdirAll(wd, 0o755)
@@ -210,7 +214,9 @@ func reentrantFamily(r *harness.Run, prop string) {
 			return
 		}
 		if ws[wi] == nil {
-			ws[wi] = mk(wi)
+			if ws[wi] = mk(wi); ws[wi] == nil {
+				return
+			}
 		}
 		t := terms[ti]
 		for _, x := range inputs {
@@ -223,14 +229,18 @@ func reentrantFamily(r *harness.Run, prop string) {
 				continue
 			}
 			// does it need the history of the reused state?
-			fresh := mk(nw + wi)
-			alone := runTerm(fresh, t, x)
-			fresh.L.Close()
+			alone := "(no fresh state)"
+			if fresh := mk(nw + wi); fresh != nil {
+				alone = runTerm(fresh, t, x)
+				fresh.L.Close()
+			}
 			r.Violation("reentrant/"+strings.Join(t, "/"), fmt.Sprintf("term %s(W0%s on input %q: %s\n(on a fresh state: %q)", strings.Join(t, "("), strings.Repeat(")", len(t)), x, msg, alone),
 				map[string]interface{}{"term": t, "input": x, "script": reentrantLua, "fresh_state_result": alone})
 			// the state may hold damaged scratch data now: replace it
 			ws[wi].L.Close()
-			ws[wi] = mk(wi)
+			if ws[wi] = mk(wi); ws[wi] == nil {
+				return
+			}
 		}
 	})
 	for _, w := range ws {
